@@ -210,6 +210,10 @@ pub fn run(a: &Args) {
     };
     // one at a time: the scheduling delay is process-wide
     for s in subs {
+        if crate::l2::timeouts() >= crate::l2::ENOUGH_TIMEOUTS {
+            sink.count("stopped-early-after-timeouts");
+            break;
+        }
         match scenario(s) {
             Some((term, delayed, mode)) => {
                 sink.count(["drop", "cancel-read-drop", "cancel-twice-drop", "drop-vs-server-connection-close", "drop-vs-server-channel-close", "drop-while-unwinding", "drop-beside-a-backlog-of-65536+"][mode as usize]);
